@@ -113,3 +113,38 @@ def stress_subsample(ctx, r):
             raise Violation('%s/stress-subsample-bigcount' % ctx.id,
                             'n=%d sums %r' % (n, res.sum('sample')))
         ctx.count('stress_subsample_calls')
+
+
+def stress_subsample_by_id(ctx, r):
+    """Scale for the by-id form: few / a quarter / half / nearly all of
+    3000 and 5000 ids, both axes; exactly min(n, N) distinct ids are kept,
+    each with its vector unchanged."""
+    for N in (3000, 5000):
+        ids = ['id%05d' % i for i in range(N)]
+        V = np.zeros((N, 3))
+        V[:, 0] = np.arange(1, N + 1)
+        V[:, 1] = 5.0 + (np.arange(N) % 7)
+        V[:, 2] = 1.0           # no vector of either axis can become empty
+        for axis in ('observation', 'sample'):
+            t = ctx.biom.Table(V if axis == 'observation' else V.T,
+                               ids if axis == 'observation' else
+                               ['a', 'b', 'c'],
+                               ['a', 'b', 'c'] if axis == 'observation'
+                               else ids)
+            for n in (1, 17, N // 8, N // 4, N // 2, N - 1, N, N + 5):
+                res = t.subsample(n, axis=axis, by_id=True,
+                                  seed=r.randrange(10 ** 6))
+                kept = [str(i) for i in res.ids(axis=axis)]
+                if len(kept) != min(n, N) or len(set(kept)) != len(kept) or \
+                        not set(kept) <= set(ids):
+                    raise Violation('%s/by-id-kept' % ctx.id, 'scale: %d ids '
+                                    'kept (%d distinct) for n=%d of N=%d on '
+                                    '%s' % (len(kept), len(set(kept)), n, N,
+                                            axis))
+                for i in kept[:50] + kept[-50:]:
+                    got = np.asarray(res.data(i, axis=axis)).reshape(-1)
+                    if not np.array_equal(got, V[int(i[2:])]):
+                        raise Violation('%s/by-id-value-changed' % ctx.id,
+                                        'scale: vector of %r is %r' %
+                                        (i, got.tolist()))
+                ctx.count('stress_by_id_calls')
